@@ -210,6 +210,12 @@ def run(ctx):
     from .c03 import rule_foreign_feedback_table, spec_tables
     rule_foreign_feedback_table(ctx, idx, spec_tables(), rid="R09.5")
 
+    # ------------------------------------------------------------------ R09.9 (shared with C03 R03.1)
+    # where a tag name ends decides when the scanner releases the bytes before it: byte classes must equal the reference
+    from .c03 import rule_product
+    from ..smgraph import Graph as _G9
+    rule_product(ctx, _G9(aut), aut, rid="R09.9")
+
     ctx.not_decided += ["schedule-independence of pending(k) as a relation between two runs", "flush_remaining_input after each parse is checked under C01 (R01.4)"]
     return ("Static analysis of the tokenizer automaton extracted from the macro-expanded StateMachine trait "
             "(%d states, %d leaves): typestate/dataflow of the tag-scanner's hold-back marks over every path of the automaton; "
